@@ -12,7 +12,7 @@ RULE = ("structured generator over degree 1..7 x knot-vector kind {uniform, repe
         "parameter class {span interior, on knot, domain start, domain end, non-dyadic}; knot generation over all (degree, count) "
         "pairs; malformed knot vectors for check(); non-trivial = implementation returned a value and the knot vector has at "
         "least one interior knot (basis/span families) ; distinct by case hash")
-ASSUMPTIONS = ["floating point rounding below 1e-9 is not observable", "parameters within 1e-5 of the domain end (binary search tolerance shortcut) are not generated"]
+ASSUMPTIONS = ["floating point rounding below 1e-9 is not observable"]
 THEOREM_NOTES = "see coq/Props/C03.v; [G] = all degrees / knot vectors"
 
 
@@ -28,6 +28,13 @@ class Span(Family):
             p = rng.randint(1, 7)
             U, kind = gc.knotvector(rng, p)
             u, cls = gc.param(rng, U, p)
+            if rng.random() < 0.12 and kind in ("uniform", "mult"):
+                # parameters (and sometimes an interior knot) within 1e-5 of the domain end: the binary search's former
+                # tolerance shortcut region
+                eps = 2.0 ** -rng.choice([17, 18, 19, 20])  # > 1e-7, the multiplicity tolerance
+                if rng.random() < 0.6 and len(U) > 2 * (p + 1):
+                    U = U[:-(p + 2)] + [1.0 - eps] + U[-(p + 1):]
+                u, cls = 1.0 - eps * rng.choice([0.5, 0.75, 1.0, 1.5]), "nearend"
             out.append({"p": p, "U": U, "u": u, "kind": kind, "cls": cls})
         return out
 
